@@ -697,6 +697,12 @@ func wantDXF(x float64) float64 {
 }
 
 func checkDXF(t ev.TB, rec *ev.Rec, api, path string, model []seg2) {
+	checkDXFWithCircles(t, rec, api, path, model, 0)
+}
+
+// checkDXFWithCircles: as checkDXF for a drawing object that also received `circles` point markers
+// (DXF.Points draws one CIRCLE per point on layer "Points"); they are the only other entities allowed.
+func checkDXFWithCircles(t ev.TB, rec *ev.Rec, api, path string, model []seg2, circles int) {
 	d, err := fmtread.ReadDXF(path)
 	if err != nil {
 		rec.Violation(t, api+":unreadable", "yofu/dxf cannot read the file back: %v; model %v", err, model)
@@ -707,8 +713,19 @@ func checkDXF(t ev.TB, rec *ev.Rec, api, path string, model []seg2) {
 		rec.Violation(t, api+":unreadable", "group-code reader cannot read the file back: %v; model %v", err, model)
 		return
 	}
-	if len(d.Other) != 0 || len(raw.Other) != 0 {
-		rec.Violation(t, api+":foreign-entities", "entities other than LINE in the file: %v / %v", d.Other, raw.Other)
+	nc, rnc := 0, 0
+	for _, o := range d.Other {
+		if strings.Contains(strings.ToLower(o), "circle") {
+			nc++
+		}
+	}
+	for _, o := range raw.Other {
+		if strings.Contains(strings.ToLower(o), "circle") {
+			rnc++
+		}
+	}
+	if len(d.Other) != nc || len(raw.Other) != rnc || nc != circles || rnc != circles {
+		rec.Violation(t, api+":foreign-entities", "entities other than LINE in the file: %v / %v (expected %d point markers)", d.Other, raw.Other, circles)
 		return
 	}
 	if len(d.Lines) != len(model) || len(raw.Lines) != len(model) {
@@ -944,22 +961,61 @@ func TestObjectHistory(t *testing.T) {
 			}
 			return
 		}
+		// the drawing object's other methods take part in the history: point markers (their own layer),
+		// triangles and boxes (three / four LINEs each, in the documented vertex order)
 		d := render.NewDXF(path)
 		done := 0
-		for _, c := range cuts {
-			if rapid.Bool().Draw(t, "one-by-one") {
+		var hist []seg2
+		circles := 0
+		add := func(a, b v2.Vec) { hist = append(hist, seg2{{a.X, a.Y}, {b.X, b.Y}}) }
+		for ci, c := range cuts {
+			l := fmt.Sprintf("h%d.", ci)
+			switch rapid.IntRange(0, 5).Draw(t, l+"extra") {
+			case 0:
+				k := rapid.IntRange(1, 3).Draw(t, l+"points")
+				var vs v2.VecSet
+				for i := 0; i < k; i++ {
+					vs = append(vs, v2.Vec{X: float64(rapid.IntRange(-50, 50).Draw(t, l+"px")), Y: float64(rapid.IntRange(-50, 50).Draw(t, l+"py"))})
+				}
+				d.Points(vs, 0.5)
+				circles += k
+				rec.Add("history:dxf:points-call", 1)
+			case 1:
+				var tr sdf.Triangle2
+				for i := range tr {
+					tr[i] = v2.Vec{X: float64(rapid.IntRange(-50, 50).Draw(t, l+"tx")), Y: float64(rapid.IntRange(-50, 50).Draw(t, l+"ty"))}
+				}
+				d.Triangle(tr)
+				add(tr[0], tr[1])
+				add(tr[1], tr[2])
+				add(tr[2], tr[0])
+				rec.Add("history:dxf:triangle-call", 1)
+			case 2:
+				lo := v2.Vec{X: float64(rapid.IntRange(-50, 0).Draw(t, l+"bx")), Y: float64(rapid.IntRange(-50, 0).Draw(t, l+"by"))}
+				hi := lo.Add(v2.Vec{X: float64(rapid.IntRange(1, 50).Draw(t, l+"bw")), Y: float64(rapid.IntRange(1, 50).Draw(t, l+"bh"))})
+				d.Box(&sdf.Box2{Min: lo, Max: hi})
+				c1, c3 := v2.Vec{X: hi.X, Y: lo.Y}, v2.Vec{X: lo.X, Y: hi.Y}
+				add(lo, c1)
+				add(c1, hi)
+				add(hi, c3)
+				add(c3, lo)
+				rec.Add("history:dxf:box-call", 1)
+			}
+			if rapid.Bool().Draw(t, l+"one-by-one") {
 				for ; done < c; done++ {
 					d.Line(lines[done])
+					hist = append(hist, model[done])
 				}
 			} else {
 				d.Lines(lines[done:c])
+				hist = append(hist, model[done:c]...)
 				done = c
 			}
 			if err := d.Save(); err != nil {
-				rec.Violation(t, "DXF.Save:error", "Save returned %v after %d lines", err, done)
+				rec.Violation(t, "DXF.Save:error", "Save returned %v after %d lines", err, len(hist))
 				return
 			}
-			checkDXF(t, rec, "DXF.Save(history)", path, model[:done])
+			checkDXFWithCircles(t, rec, "DXF.Save(history)", path, hist, circles)
 		}
 	})
 }
